@@ -7,3 +7,6 @@ python3 tools/extract.py /repo lean || true
 (cd lean && lake build)
 [ -f harness/Cargo.lock ] || cp /repo/Cargo.lock harness/Cargo.lock
 (cd harness && cargo build --offline)
+# the real `sk` binary (release profile: a debug build of the binary dies in clap's own debug assertions);
+# checks that use it rebuild it incrementally from the working tree
+cargo build --release --offline --manifest-path /repo/Cargo.toml
